@@ -100,7 +100,8 @@ def generate(seed, batch):
     rng = rng_for(seed, 'C11', batch)
     scen = {'prop': PROP, 'seed': seed, 'batch': batch}
     scen['c'] = {'seed': rng.getrandbits(32), 'kind': rng.choice(['gauss', 'gauss', 'single-w', 'sparse']),
-                 'scale': 10 ** rng.uniform(-5, -1)}
+                 'scale': 10 ** rng.uniform(-5, -1),
+                 'layout': rng.choice(['C', 'C', 'strided', 'column', 'float32', 'list'])}
     scen['NLterms'] = rng.random() < 0.5
     scen['perm_seed'] = rng.getrandbits(32)
     if batch == 'P':
@@ -130,6 +131,13 @@ def generate(seed, batch):
             panels.append(d)
         scen['panels'] = panels
         scen['group'] = rng.choice(['g1', 'g1', 'g2'])
+        # group names are free text: also names that contain one another (skin / skin_aft, b1 / b10, a / ab)
+        names = rng.choice([('g1', 'g2'), ('g1', 'g2'), ('skin', 'skin_aft'), ('skin_aft', 'skin'), ('b10', 'b1'), ('a', 'ab'), ('G', 'g')])
+        ren = {'g1': names[0], 'g2': names[1]}
+        for d in panels:
+            d['group'] = ren[d['group']]
+        scen['group'] = ren[scen['group']]
+        scen['relabel'] = {'index': rng.randrange(4), 'to': rng.choice(list(names) + ['other'])} if rng.random() < 0.25 else None
         scen['points'] = {'kind': 'default', 'gridx': rng.randint(1, 12), 'gridy': rng.randint(1, 12), 'seed': 0,
                           'edges': True}
         scen['workers'] = gen_workers(rng, npoints(scen['points']))
@@ -219,6 +227,10 @@ def shrink_candidates(scen):
         c = copy.deepcopy(scen)
         c['c']['kind'] = 'single-w'
         yield c
+    if scen['c'].get('layout', 'C') != 'C':
+        c = copy.deepcopy(scen)
+        c['c']['layout'] = 'C'
+        yield c
     plist = [scen['panel']] if scen.get('host') == 'panel' else scen.get('panels', [])
     for pi, pd in enumerate(plist):
         for key in ('m', 'n'):
@@ -284,7 +296,29 @@ def make_c(spec, size, dofs):
         else:
             keep[rng.integers(0, size)] = True
         c *= keep
-    return np.ascontiguousarray(c)
+    lay = spec.get('layout', 'C')
+    if lay == 'C':
+        # contiguous float64, handed to the kernels without a copy: it lives inside a larger buffer whose remainder holds
+        # a fixed pattern, so that a read outside the vector picks up the same numbers in every interpreter
+        pad = 4 * size + 64
+        big = np.empty(2 * pad + size)
+        big[:] = 7.0e3 + np.arange(big.size) % 13
+        big[pad:pad + size] = c
+        return big[pad:pad + size]
+    c = np.ascontiguousarray(c)
+    if lay == 'strided':
+        big = np.zeros(2 * size)
+        big[::2] = c
+        return big[::2]                      # non-contiguous float64 view
+    if lay == 'column':
+        mat = np.zeros((size, 3))
+        mat[:, 1] = c
+        return mat[:, 1]                     # a column of a C-ordered matrix (like eigvecs[:, k])
+    if lay == 'float32':
+        return c.astype(np.float32)
+    if lay == 'list':
+        return [float(v) for v in c]
+    return c
 
 
 def make_points(pts, a, b):
@@ -371,9 +405,12 @@ def same_bytes(name, a, b, inv, ctx):
         d = dict(ctx)
         d['quantity'] = name
         if a.shape == b.shape:
-            diff = np.abs(a - b)
-            d['maxdiff'] = float(np.nanmax(diff)) if diff.size else 0.0
-            d['index'] = int(np.nanargmax(diff)) if diff.size else -1
+            with np.errstate(all='ignore'):
+                diff = np.abs(a - b)
+            fin = np.isfinite(diff)
+            d['maxdiff'] = float(diff[fin].max()) if fin.any() else None
+            d['index'] = int(np.argmax(np.where(fin, diff, -1.0))) if fin.any() else int(np.argmax(~fin.ravel()))
+            d['nonfinite'] = int((~fin).sum())
         else:
             d['shapes'] = [list(a.shape), list(b.shape)]
         raise Violation(inv, d)
@@ -449,7 +486,7 @@ def run_panel_like(scen, res, log, obj, caller, c, xs, ys, dofs, r, F, set_worke
     refs, wrongs = reference_for(obj, c, xs, ys, dofs, r, nl, F)
     perm_rng = np.random.Generator(np.random.PCG64([scen['perm_seed'], 3]))
     npts = int(np.asarray(xs).size)
-    csha, xsha, ysha = sha_bytes(c.tobytes()), sha_bytes(np.ascontiguousarray(xs).tobytes()), sha_bytes(np.ascontiguousarray(ys).tobytes())
+    csha, xsha, ysha = sha_bytes(np.asarray(c).tobytes()), sha_bytes(np.ascontiguousarray(xs).tobytes()), sha_bytes(np.ascontiguousarray(ys).tobytes())
     for q in scen['calls']:
         if q != 'uvw' and dofs != 3:
             continue
@@ -493,7 +530,7 @@ def run_panel_like(scen, res, log, obj, caller, c, xs, ys, dofs, r, F, set_worke
                 bump(res['probes'], 'G3_checked')
         if base is None or base == 'raised':
             continue
-        if sha_bytes(c.tobytes()) != csha or sha_bytes(np.ascontiguousarray(xs).tobytes()) != xsha or \
+        if sha_bytes(np.asarray(c).tobytes()) != csha or sha_bytes(np.ascontiguousarray(xs).tobytes()) != xsha or \
                 sha_bytes(np.ascontiguousarray(ys).tobytes()) != ysha:
             raise Violation('G6-inputs', dict(ctx, why='amplitudes or point arrays passed in were modified', quantity_call=q))
         # G2 permutation equivariance and G4 single-point calls (explicit point sets only)
@@ -637,6 +674,11 @@ def execute(scen):
             from compmech.panel.assembly import PanelAssembly
             panels = [build_panel(d) for d in scen['panels']]
             asm = PanelAssembly(panels)
+            if scen.get('relabel') is not None:
+                # the group label is a plain attribute of the member panels; changing it after the assembly exists is legal
+                rl = scen['relabel']
+                panels[rl['index'] % len(panels)].group = rl['to']
+                bump(res['probes'], 'group_relabelled_after_assembly')
             for p in panels:
                 p.calc_k0(silent=True)
             size = asm.get_size()
@@ -645,7 +687,7 @@ def execute(scen):
             group = scen['group']
             members = [p for p in panels if p.group == group]
             nl = scen['NLterms']
-            csha = sha_bytes(c.tobytes())
+            csha = sha_bytes(np.asarray(c).tobytes())
             for q in scen['calls']:
                 names = UVW if q == 'uvw' else (STRAINS if q == 'strain' else STRESSES)
                 base = None
@@ -665,7 +707,7 @@ def execute(scen):
                         base = got
                         for bi, p in enumerate(members):
                             gx, gy = default_grid(p.a, p.b, pts['gridx'], pts['gridy'])
-                            cp = c[p.col_start:p.col_end]
+                            cp = np.asarray(c, dtype=float)[p.col_start:p.col_end]
                             from .refmodels import clt_abd
                             pdx = scen['panels'][panels.index(p)]
                             plyts_ = list(pdx['plyts']) if pdx.get('plyts') else [pdx['plyt']] * len(pdx['stack'])
@@ -698,7 +740,7 @@ def execute(scen):
                                             'why': 'result differs from the result for %d workers' % scen['workers'][0]})
                         bump(res['probes'], 'G3_checked')
                     sigs.append('asm/%s/w%d/r%d/n%d/nl%d/%s' % (q, w, npoints(pts) % w, len(members), int(nl), ompenv))
-                if sha_bytes(c.tobytes()) != csha:
+                if sha_bytes(np.asarray(c).tobytes()) != csha:
                     raise Violation('G6-inputs', {'why': 'amplitude vector was modified', 'quantity_call': q})
             res['nontrivial'] = True
         elif host == 'bay':
@@ -819,7 +861,7 @@ def execute_bay(scen, res, log, sigs, ompenv):
     if not explicit:
         ctx['no_explicit_points'] = True
     # reference uses the component's own slice of the global vector
-    cslice = np.ascontiguousarray(c[lo:hi])
+    cslice = np.ascontiguousarray(np.asarray(c, dtype=float)[lo:hi])
 
     def caller3(q, c_, xs_, ys_, nl):
         return caller2(q, c, xs_, ys_, nl)
